@@ -20,7 +20,7 @@ import sys
 from .. import e2e, guard
 from ..common import Hang, Rng, hx, unhx, watchdog
 from ..runner import Check
-from . import c16_bridge, c16_names
+from . import c16_bridge, c16_names, c16_singular
 from .c17 import parse_sx, unbound_aliased
 
 # (document, kind, None | failing mechanism) of every end-to-end case of this run: input of the
@@ -125,6 +125,8 @@ def key_class(k: str) -> str:
         return "reserved"
     if k in KEYS_TYPENAME:
         return "typename"
+    if k in c16_singular.POOL_SET:
+        return "singular_pool"   # plural spelling of a keyword / of a name the module uses, or the letter s (c16_singular)
     if keyword.iskeyword(k) or keyword.issoftkeyword(k):
         return "keyword"
     if k.startswith("_") or k.endswith("_"):
@@ -466,7 +468,8 @@ def evaluate(doc: dict, fmt: str, kind: str) -> tuple[str, str] | None:
     code = res.code
     err = e2e.parses(code)
     if err:
-        return ("unparsable", err)
+        # the spelling of the class names is part of the observation (an empty name, a keyword)
+        return ("unparsable", err + c16_singular.class_tag(code))
     ua = unbound_aliased(code)
     if ua:
         return ("aliased_name_unbound", f"the module refers to {ua} which it never binds (C02's domain)")
@@ -491,7 +494,7 @@ def evaluate(doc: dict, fmt: str, kind: str) -> tuple[str, str] | None:
                     dumped = obj.dict(by_alias=True, exclude_unset=True)
         except Exception as e:  # noqa: BLE001
             # what the emitted classes shadow is part of the observation (pydantic v2 evaluates annotations inside the class namespace)
-            return ("sample_rejected", f"{type(e).__name__}: {str(e)[:300]}" + (c16_names.shadow_tag(code) if kind == "pydantic_v2.BaseModel" else ""))
+            return ("sample_rejected", f"{type(e).__name__}: {str(e)[:300]}" + (c16_names.shadow_tag(code) + c16_singular.alias_tag(code, doc) if kind == "pydantic_v2.BaseModel" else ""))
         diff = keys_differ(doc, dumped)
         if diff:
             return ("keys_differ", diff)
@@ -592,8 +595,12 @@ def cause_of(mechanism: str, observed: str) -> str:
         return "value_coerced_to_other_type"
     if mechanism == "generate_error":
         return observed.split(":")[0].replace("generate() raised ", "")
+    if mechanism == "unparsable" and c16_singular.cause_from_tag(observed):
+        return c16_singular.cause_from_tag(observed)   # class_name_is_empty | class_name_is_keyword | class_name_is_not_identifier
     if mechanism == "sample_rejected" and c16_names.cause_from_tag(observed):
         return c16_names.cause_from_tag(observed)   # member_shadows_own_type_class | member_shadows_sibling_type_class
+    if mechanism == "sample_rejected" and c16_singular.cause_from_alias_tag(observed):
+        return c16_singular.cause_from_alias_tag(observed)   # the rename pass wrote the Python name over the member's wire name
     return "other"
 
 
@@ -623,6 +630,8 @@ def oracle_case(ck: Check, camp, doc: dict, fmt: str, kind: str) -> None:
              "cause": cause_of(mechanism, observed), "has_all_null_array": has_all_null_array(small),
              "has_typename_key": any(key_class(k) == "typename" for k in all_keys(small)),
              "has_astral_key": any(key_class(k) == "astral" for k in all_keys(small)),
+             # array-of-objects members whose first (singular) class name is unusable; the same keyword twice is the recorded defect
+             "singular_sites": c16_singular.singular_sites(small), "dup_singular_keyword": c16_singular.dup_singular_keyword(small),
              # where the shrunk document lies w.r.t. the decidable hypothesis of C16.sample_accepted_partial
              "v1_region": c16_bridge.region_of(ck, small, kind) if mechanism == "sample_rejected" else "n/a"},
             {"document": small, "format": fmt, "model": kind, "original_document": doc if small is not doc else None}, observed)
@@ -800,11 +809,14 @@ def run(ck: Check) -> None:
     del ACCEPT_LOG[:]
     guard.campaign(ck, campaign_documents, 200 if quick else 2500)
     guard.campaign(ck, c16_names.campaign_selfnamed, 120 if quick else 1500, sys.modules[__name__])
+    guard.campaign(ck, c16_singular.campaign_names, 150 if quick else 1500)
+    guard.campaign(ck, c16_singular.campaign_singular, 150 if quick else 2000, sys.modules[__name__])
     guard.campaign(ck, campaign_csv, 80 if quick else 800)
     guard.campaign(ck, campaign_csv_sample, 120 if quick else 1200)
     guard.campaign(ck, c16_bridge.campaign_accepts, list(ACCEPT_LOG))
     guard.campaign(ck, c16_bridge.campaign_v1_boundary, 2 if quick else 3, sys.modules[__name__])
     ck.search_hooks.append(lambda ck_: c16_names.search_selfnamed(ck_, sys.modules[__name__]))
+    ck.search_hooks.append(lambda ck_: c16_singular.search_singular(ck_, sys.modules[__name__]))
     ck.search_hooks.append(search_keys)
     known_findings(ck)
 
